@@ -200,7 +200,8 @@ def directed():
     # S: no block anywhere / slot 1 / the first block found counts
     w = {"ev": "Cfg", "mode": "S", "spe": 2, "vals": V(1, 2, 3), "real": {}, "blocks": {"2": {"ver": "capella", "tok": 2, "ntx": 30}, "1": {"ver": "altair", "tok": 1, "ntx": 0}}}
     out.append([w, call(1, 1, "proposal", slot=1), call(2, 1, "proposal", slot=2), call(3, 1, "proposal", slot=3), call(4, 1, "proposal", slot=5),
-                call(5, 1, "proposal", slot=4, auto=["ok", "ok", "ok", "ok", "ok", "err"])])
+                call(5, 1, "proposal", slot=4, auto=["ok", "ok", "ok", "ok", "ok", "err"]),
+                call(6, 1, "proposal", slot=5, auto=["ok", "ok", "500"])])
     # L: one connect for many, failures retried, cancellation while waiting
     out.append([{"ev": "Cfg", "mode": "L"}, lcall(1, "av"), lcall(2, "gen"), lcall(3, "cv"), lcall(4, "setvc", 2), {"ev": "Tick"},
                 {"ev": "PAns", "c": 1, "how": "err"}, {"ev": "Tick"}, {"ev": "Tick"}, {"ev": "Cancel", "c": 3}, {"ev": "Tick"},
@@ -287,7 +288,7 @@ def random_world(r, big):
 
 
 def autos(r, n=8, perr=0.06):
-    return [("ok" if r.random() >= perr else r.choice(["err", "err", "zero"])) for _ in range(n)]
+    return [("ok" if r.random() >= perr else r.choice(["err", "err", "zero", "500"])) for _ in range(n)]
 
 
 def random_S(r, big):
